@@ -25,14 +25,16 @@ type BuilderVisitor struct {
 func (visitor *BuilderVisitor) Visit(schemas Schemas, builders Builders) (Builders, error) {
 	var err error
 
+	// the builders that were given are left as they are
+	visited := make(Builders, len(builders))
 	for i, builder := range builders {
-		builders[i], err = visitor.VisitBuilder(schemas, builder)
+		visited[i], err = visitor.VisitBuilder(schemas, builder)
 		if err != nil {
 			return nil, fmt.Errorf("[%s.%s] %w", builder.Package, builder.Name, err)
 		}
 	}
 
-	return builders, nil
+	return visited, nil
 }
 
 func (visitor *BuilderVisitor) VisitBuilder(schemas Schemas, builder Builder) (Builder, error) {
